@@ -142,12 +142,17 @@ var oddAmounts = []string{
 	"abc", "1..2", " 1", "1 ", "0x10", "1_000", "1e", "e5", ".", "+", "-", "NaN", "Infinity", "1e+", "--1", "1,5", "１", "1e1.5", "+-1",
 }
 
-// outside the modelled domain (binary exponent, long mantissa, large exponent); run in isolated sessions only
-var outsideAmounts = []string{"1p3", "1P-2", "1e41", "1e-41", "1e400", "1e1000", "12345678901234567890123456789012345678901", "1e0001"}
+// binary exponent, long mantissa, large exponents: formerly outside the modelled domain
+var outsideAmounts = []string{"1p3", "1P-2", "1e41", "1e-41", "1e400", "1e1000", "12345678901234567890123456789012345678901", "1e0001", "1e-1000", "0.5p1", "1e20000", "1e99999999999", "-1p-70", "123456789012345678901234567890123456789012345678901234567890123456789012345678901234567890e-80"}
 
 func (g *Gen) amount(bal *big.Int) string {
 	switch g.r.Intn(10) {
-	case 0, 1:
+	case 0:
+		return oddAmounts[g.r.Intn(len(oddAmounts))]
+	case 1:
+		if g.r.Chance(1, 3) {
+			return outsideAmounts[g.r.Intn(len(outsideAmounts))]
+		}
 		return oddAmounts[g.r.Intn(len(oddAmounts))]
 	case 2:
 		// more than 18 decimals
@@ -157,47 +162,9 @@ func (g *Gen) amount(bal *big.Int) string {
 	}
 }
 
-// inModelDomain mirrors the Lean model's domain bounds (Parsed.outside): used only to keep
-// out-of-domain strings in isolated sessions; a wrong answer here shows as a diff, not as agreement.
-func inModelDomain(s string) bool {
-	t := strings.TrimLeft(s, "+-")
-	if strings.ContainsAny(t, "pP") {
-		// could be an error string as well; the driver decides, we only isolate
-		return false
-	}
-	mant := t
-	exp := ""
-	if i := strings.IndexAny(t, "eE"); i >= 0 {
-		mant, exp = t[:i], t[i+1:]
-	}
-	digits := 0
-	for _, c := range mant {
-		if c >= '0' && c <= '9' {
-			digits++
-		}
-	}
-	if digits > 40 {
-		return false
-	}
-	exp = strings.TrimLeft(exp, "+-")
-	allDigits := exp != ""
-	for _, c := range exp {
-		if c < '0' || c > '9' {
-			allDigits = false
-		}
-	}
-	if allDigits {
-		if len(exp) > 3 {
-			return false
-		}
-		n := 0
-		fmt.Sscanf(exp, "%d", &n)
-		if n > 40 {
-			return false
-		}
-	}
-	return true
-}
+// inModelDomain: every string is evaluated by the model now (C18's exact big.Float semantics); kept as a
+// hook for generators, always true.
+func inModelDomain(s string) bool { return true }
 
 // ---- scripts
 
